@@ -106,6 +106,18 @@ theorem step_refines (s : Sys) (sp : Spec.SSys) (k : Nat) (op : Op)
       ∧ Rel s' (Spec.step sp k op).1 ∧ (∀ o', (Spec.step sp k op).2 = some o' → o = o') :=
   step_refines_all s sp k op hinv hrel hv
 
+/-- the same with the precondition read off the spec state (`Spec.valid`: what the standard's book-keeping
+    knows; nothing is assumed about the contents of an object it leaves unspecified) -/
+theorem step_refines_spec (s : Sys) (sp : Spec.SSys) (k : Nat) (op : Op)
+    (hinv : Inv s) (hrel : Rel s sp) (hv : Spec.valid s.ty sp k op = true) :
+    ∃ s' o, step s k op = .ok (s', o) ∧ Inv s' ∧ s'.ty = s.ty ∧ s'.cap = s.cap ∧ s'.kind = s.kind
+      ∧ s'.objs.length = s.objs.length
+      ∧ Rel s' (Spec.step sp k op).1 ∧ (∀ o', (Spec.step sp k op).2 = some o' → o = o') :=
+  step_refines s sp k op hinv hrel (valid_of_spec hrel k op hv)
+
+example : Spec.valid .sv ((Spec.SSys.init 4).setObj 1 none) 1 (.resize 2) = true
+    ∧ Spec.valid .sv ((Spec.SSys.init 4).setObj 1 none) 1 .pop = false := by decide
+
 theorem init_inv (ty : Ty) (cap : Nat) (kind : Kind) (hc : cap < 2 ^ 64) : Inv (Sys.init ty cap kind) := by
   refine ⟨hc, ?_⟩
   intro d hd
@@ -190,6 +202,15 @@ theorem history_refines_init (ty : Ty) (cap : Nat) (kind : Kind) (hc : cap < 2 ^
       ∧ Rel s' (Spec.run (Spec.SSys.init cap) ops).1 ∧ OutsAgree outs (Spec.run (Spec.SSys.init cap) ops).2 := by
   obtain ⟨s', outs, h1, h2, h3, _, h5, h6⟩ :=
     history_refines ops _ _ (init_inv ty cap kind hc) (init_rel ty cap kind) hv
+  exact ⟨s', outs, h1, h2, h3, h5, h6⟩
+
+/-- … and with validity judged in the model state -/
+theorem history_refines_modelstate_init (ty : Ty) (cap : Nat) (kind : Kind) (hc : cap < 2 ^ 64) (ops : List (Nat × Op))
+    (hv : validRun (Sys.init ty cap kind) ops = true) :
+    ∃ s' outs, run (Sys.init ty cap kind) ops = .ok (s', outs) ∧ Inv s' ∧ s'.cap = cap
+      ∧ Rel s' (Spec.run (Spec.SSys.init cap) ops).1 ∧ OutsAgree outs (Spec.run (Spec.SSys.init cap) ops).2 := by
+  obtain ⟨s', outs, h1, h2, h3, _, h5, h6⟩ :=
+    history_refines_modelstate ops _ _ (init_inv ty cap kind hc) (init_rel ty cap kind) hv
   exact ⟨s', outs, h1, h2, h3, h5, h6⟩
 
 example : Spec.validHist .sv (Spec.SSys.init 3)
